@@ -226,4 +226,35 @@ theorem code_fastclose_latch (isDNS : GoRT.Opaque "net.Addr" → Bool) (timeout 
     | false => simp [ha] at this
   exact (fastclose_exactly timeout Gen.dnsTimeoutNs _ hpos true 0).2 harmed
 
+/-- **code_every_write_and_read_goes_through_the_bookkeeping**: the translated `natconn.WriteTo` and `natconn.ReadFrom`
+    (service/udp.go), for every socket behaviour: a write to a target is always preceded by `onWrite` for that
+    destination (so the promise of `code_promise_kept` is armed before the datagram leaves) and is made on the wrapped
+    socket of the association as `onWrite` left it; a read that FAILS leaves the association exactly as it was — no
+    deadline is touched, the fast-close latch is not consumed; a read that succeeds runs `onRead` for the datagram's source and hands
+    the socket's answer through unchanged. -/
+theorem code_every_write_and_read_goes_through_the_bookkeeping
+    (w : GoRT.Opaque "net.PacketConn" → List UInt8 → GoRT.Opaque "net.Addr" → Int × Option String)
+    (rd : GoRT.Opaque "net.PacketConn" → List UInt8 → Int × GoRT.Opaque "net.Addr" × Option String)
+    (isDNS : GoRT.Opaque "net.Addr" → Bool) (now : Int) (c : Gen.Code.natconn) (buf : List UInt8) (dst : GoRT.Opaque "net.Addr") :
+    Gen.Code.natconn.WriteTo w isDNS now c buf dst =
+      (Gen.Code.natconn.onWrite isDNS now c dst).map (fun c' => (c', w c'.PacketConn buf dst)) ∧
+    ((rd c.PacketConn buf).2.2 ≠ none → Gen.Code.natconn.ReadFrom rd isDNS now c buf = some (c, rd c.PacketConn buf)) ∧
+    ((rd c.PacketConn buf).2.2 = none → Gen.Code.natconn.ReadFrom rd isDNS now c buf =
+      (Gen.Code.natconn.onRead isDNS now c (rd c.PacketConn buf).2.1).map (fun c' => (c', rd c.PacketConn buf))) := by
+  refine ⟨Tie.NatConn.writeTo_tie w isDNS now c buf dst, ?_, ?_⟩
+  · intro h; rw [Tie.NatConn.readFrom_tie]; simp [h]
+  · intro h; rw [Tie.NatConn.readFrom_tie]; simp [h]
+
+/-- **code_write_refines_model**: a whole `WriteTo` of the translated code, started in a state related to the model's,
+    never panics, ends in a state related to the model's `onWrite`, and has recorded exactly the model's deadline calls. -/
+theorem code_write_refines_model
+    (w : GoRT.Opaque "net.PacketConn" → List UInt8 → GoRT.Opaque "net.Addr" → Int × Option String)
+    (isDNS : GoRT.Opaque "net.Addr" → Bool) (now timeout : Nat) (c : Gen.Code.natconn) (s : S) (buf : List UInt8)
+    (dst : GoRT.Opaque "net.Addr") (hR : Tie.NatConn.R timeout c s) :
+    ∃ c' res, Gen.Code.natconn.WriteTo w isDNS (now : Int) c buf dst = some (c', res) ∧
+      Tie.NatConn.R timeout c' (onWrite s (isDNS dst) now timeout Gen.dnsTimeoutNs).1 ∧
+      c'.eff = c.eff ++ Tie.NatConn.effOf (onWrite s (isDNS dst) now timeout Gen.dnsTimeoutNs).2 := by
+  obtain ⟨c', h1, h2, h3⟩ := code_onWrite_refines_model isDNS now timeout c s dst hR
+  exact ⟨c', _, by rw [Tie.NatConn.writeTo_tie, h1]; rfl, h2, h3⟩
+
 end OutlineModel.Props.C14
